@@ -275,7 +275,7 @@ PROPS["C10"] = dict(
     builds=[("asan", "native"), ("asan", "noasm"), ("asan", "noti"), ("asan", "portable"), ("asan", "nosimd")],
     builds_thorough=[("asan", "native"), ("asan", "noasm"), ("asan", "noti"), ("asan", "portable"), ("asan", "nosimd"), ("plain", "native"), ("plain", "portable")],
     level="exploration",
-    rule=("A shared deterministic corpus (pure function of VERIF_SEED) drives harness/apitable.hpp: 59 drivers covering ~290 public deterministic functions (all AEAD forms, MAC/hash one-shot and streaming, KDFs, stream "
+    rule=("A shared deterministic corpus (pure function of VERIF_SEED) drives harness/apitable.hpp: 60 drivers covering ~290 public deterministic functions (all AEAD forms, MAC/hash one-shot and streaming, KDFs, stream "
           "ciphers and cores, secretbox/box incl. NaCl and afternm forms, seal_open, secretstream, X25519, kx, Ed25519 incl. ph and conversions, Edwards/Ristretto group, scalar and hash-to-group functions, comparison/"
           "arithmetic helpers, codecs, padding, Argon2/scrypt raw + verify/needs_rehash), with structured arguments where the backends' input screening could disagree (X25519 low-order / non-canonical / sparse points, stream counters that put the 2^32 carry at a vector-stride boundary, Poly1305 blocks solved for a carry-critical accumulator, Argon2 with more than one address block per segment, every prefix of a hash string) and argument lengths at block boundaries (0,1,15-17,31-33,63-65,127-129,255-257,511-513,1023-1025) and random lengths <= 4 KiB. "
           "(a) in-process, per case: outputs and return codes under every mask of the chain AVX-512F > AVX2 > AVX > SSE4.1 > SSSE3 > SSE3 > none, with AES-NI/PCLMUL off, and under random closed feature subsets must "
@@ -293,7 +293,7 @@ PROPS["C12"] = dict(
     builds_thorough=[("asan", "native"), ("asan", "noasm"), ("asan", "portable"), ("asan", "noti"), ("asan", "nosimd")],
     fuzz=dict(name="fuzz_api", sources=["fuzz/fuzz_api.cpp"], procs=8, runs_quick=25000, time_quick=45, runs_thorough=100000000, time_thorough=900, max_len=64),
     level="exploration",
-    rule=("harness/apitable.hpp drives ~290 public functions (59 drivers; the list of covered names is in the table and the count in the evidence notes). Every input buffer is an exact-size heap block whose surroundings are "
+    rule=("harness/apitable.hpp drives ~290 public functions (60 drivers; the list of covered names is in the table and the count in the evidence notes). Every input buffer is an exact-size heap block whose surroundings are "
           "ASan-poisoned, placed at a generated misalignment 0..15; every output buffer has exactly the documented size; NULL is passed for zero-length optional pointers; decrypt/open/verify paths receive valid inputs "
           "that are then bit-flipped half of the time, codecs and unpad receive attacker-style text, password-hash verifiers receive cost-guarded mutated strings. Enumerated: the first variable length of every driver "
           "takes every value 0..1100 (public-key drivers every 7th, password hashing every 23rd), every third length also pins the second length; the sweep is repeated with every buffer ending right before / starting right after a PROT_NONE page (hardware guard: also catches accesses made by hand-written or inline assembly, which ASan does not instrument), and 2/5 of the random cases use these guard modes; 150000 fully random cases; CPU masks rotate through the whole chain incl. "
